@@ -18,6 +18,7 @@ import (
 
 	gnet "github.com/panjf2000/gnet/v2"
 	"github.com/panjf2000/gnet/v2/pkg/logging"
+	"github.com/panjf2000/gnet/v2/pkg/netpoll"
 	"github.com/panjf2000/gnet/v2/pkg/vunix"
 
 	"verifharness/tr"
@@ -370,7 +371,7 @@ func runCase(w *tr.Writer, seed uint64, idx int, focus string) {
 	}
 	var head []tr.Line
 	rec.mu.Lock()
-	head = append(head, tr.L("cfg", tr.B(cfg.et), tr.I(chunk), tr.I(cfg.bufcap), tr.I(rec.loopEfd), "1024", "256"))
+	head = append(head, tr.L("cfg", tr.B(cfg.et), tr.I(chunk), tr.I(cfg.bufcap), tr.I(rec.loopEfd), tr.I(netpoll.MaxPollEventsCap), tr.I(netpoll.MaxAsyncTasksAtOneTime)))
 	if !rec.reactor {
 		for _, fd := range rec.sockets {
 			head = append(head, tr.L("listen", tr.I(fd), tr.B(cfg.udp)))
